@@ -307,8 +307,10 @@ def cases(tier):
             yield {"kind": "cut", "stream": name, "c": c}
         for c in range(len(s["gz"]) + 1):
             yield {"kind": "cut", "stream": name, "gz": True, "c": c}
-    for name in ["small", "nested", "long", "empty"]:
+    for name in ["small", "nested", "long", "empty", "bigframe"]:
         for writer in ("low", "adapter", "gzip"):
+            if name == "bigframe" and writer == "gzip":
+                continue
             calls = count_calls(name, writer)
             for i, ln in enumerate(calls):
                 ks = sorted(set(range(ln)) if tier == "thorough" and ln <= 64 else
